@@ -39,29 +39,34 @@ Reserved    == Range(HeaderOrder) \cup Range(FirstOrder)
 
 (* Field-name slots.  The NAME ORDER is the numeric order of the slot: the harness draws, for slot n, a witness name  *)
 (* of class NameClass[n] such that every witness of slot n sorts (Python str order) before every witness of n+1.     *)
-NameClass == << "blank",      \*  1  "", " ", " lead"            (empty / leading blank)
-                "digit",      \*  2  "0day", "42"
+NameClass == << "blank",      \*  1  "", " ", " lead", "%", "%s"  (empty / leading blank / leading per-cent sign)
+                "digit",      \*  2  "0day", "42", "100%"
                 "upper",      \*  3  "Zeta", "KEY"
                 "under",      \*  4  "_private", "__x"
-                "plainA",     \*  5  "alpha", "count"            (ordinary identifiers a..m)
+                "plainA",     \*  5  "alpha", "count", "a % b"   (ordinary identifiers a..m)
                 "plainB",     \*  6  "name", "path", "result"     (ordinary identifiers n..r)
                 "lookalike",  \*  7  "task_uuid2", "timestamps"   (extends a reserved name, must NOT be treated as one)
-                "punct",      \*  8  "x=y", "w: z", "y y"         (characters the layouts themselves use)
+                "punct",      \*  8  "x=y", "w: z", "y y", "{}"   (characters the layouts / formatting themselves use)
                 "linebreak",  \*  9  "~a\nb", "~a\rb"             (a line-break character inside the NAME)
                 "nonascii" >> \* 10  non-ASCII names
-AllValueClasses == {"short", "multiline", "tabs", "nested", "number", "bool", "null", "nonascii"}
-ValueSeq == <<"short", "multiline", "tabs", "nested", "number", "bool", "null", "nonascii">>
+(* "meta" = text made of the meta-characters of Python's own formatting machinery (per-cent directives, str.format     *)
+(* braces, backslashes): "%", "%%", "%s", "%d items", "50%% off", "100%", "%(x)s", "a % b", "{}", "{0}", "C:\dir".  A  *)
+(* rendered field must come out as data whatever it contains; the same characters occur in field NAMES (witnesses of  *)
+(* slots 1, 2, 5 and 8) and inside nested values.                                                                      *)
+AllValueClasses == {"short", "multiline", "tabs", "nested", "number", "bool", "null", "nonascii", "meta"}
+ValueSeq == <<"short", "multiline", "tabs", "nested", "number", "bool", "null", "nonascii", "meta">>
+NV == Len(ValueSeq)
 
 (* An abstract message: which "first" fields it has, and a function  name slot -> value class  for the others.      *)
 NameSets == {S \in SUBSET NameIds : Cardinality(S) <= MaxExtra}
 VIdx(v) == CHOOSE i \in DOMAIN ValueSeq : ValueSeq[i] = v
-Rot(S, k) == LET s == AscSeq(S) IN [n \in S |-> ValueSeq[((k + (CHOOSE i \in DOMAIN s : s[i] = n)) % 8) + 1]]
-(* three extra fields: "full" = all 8^3 value assignments; "pair" = all 8^2 assignments of the first two names, the      *)
-(* third determined by them (every pair of classes meets on adjacent fields); "rot" = the 8 rotations of ValueSeq        *)
+Rot(S, k) == LET s == AscSeq(S) IN [n \in S |-> ValueSeq[((k + (CHOOSE i \in DOMAIN s : s[i] = n)) % NV) + 1]]
+(* three extra fields: "full" = all NV^3 value assignments; "pair" = all NV^2 assignments of the first two names, the      *)
+(* third determined by them (every pair of classes meets on adjacent fields); "rot" = the NV rotations of ValueSeq        *)
 ExtrasOver(S) == IF Cardinality(S) = 3 /\ TripleMode = "rot"
-                 THEN {f \in {Rot(S, k) : k \in 0..7} : \A n \in S : f[n] \in ValueClasses}
+                 THEN {f \in {Rot(S, k) : k \in 0..(NV - 1)} : \A n \in S : f[n] \in ValueClasses}
                  ELSE IF Cardinality(S) = 3 /\ TripleMode = "pair"
-                 THEN LET s == AscSeq(S) IN {f \in [S -> ValueClasses] : f[s[3]] = ValueSeq[((VIdx(f[s[1]]) + VIdx(f[s[2]])) % 8) + 1]}
+                 THEN LET s == AscSeq(S) IN {f \in [S -> ValueClasses] : f[s[3]] = ValueSeq[((VIdx(f[s[1]]) + VIdx(f[s[2]])) % NV) + 1]}
                  ELSE [S -> ValueClasses]
 Messages == {[first |-> F, extras |-> E] : F \in SUBSET Range(FirstOrder), E \in UNION {ExtrasOver(S) : S \in NameSets}}
 
@@ -144,9 +149,23 @@ Exprs == {"J",              \* identity
           "J_if_sel",       \* J if <selected> else SKIP
           "skip_if_sel",    \* SKIP if <selected> else J
           "fld_if_has",     \* J['field'] if 'field' in J else SKIP
-          "get_if_sel"}     \* J.get('field') if <selected> else SKIP      (the example of the usage text)
-(* value of the expression on a line: <<"whole">> the message itself, <<"field">> the value of its field,           *)
-(* <<"null">>, <<"uuid">>, or <<"SKIP">>                                                                             *)
+          "get_if_sel",     \* J.get('field') if <selected> else SKIP      (the example of the usage text)
+          \* expressions that EDIT the decoded message in place and then yield that same object:
+          "upd",            \* J.update(host='x') or J
+          "pop",            \* [J.pop('field', None), J][1]
+          "setdef",         \* [J.setdefault('field', 'dflt'), J][1]
+          "setitem",        \* J.__setitem__('field', 'new') or J
+          "copy"}           \* dict(J): a NEW object equal to the message
+EditExprs == {"upd", "pop", "setdef", "setitem"}
+(* does the expression change the message on that line? *)
+Edits(e, l) == CASE e = "upd"     -> TRUE
+                 [] e = "pop"     -> l.fld # "absent"
+                 [] e = "setdef"  -> l.fld = "absent"
+                 [] e = "setitem" -> TRUE
+                 [] OTHER         -> FALSE
+(* value of the expression on a line, AS IT IS WHEN THE EXPRESSION RETURNS: "whole" the message as it was read,        *)
+(* "whole_upd" / "whole_pop" / "whole_setdef" / "whole_setitem" the message after that edit, "field" the value of its  *)
+(* field, "null", "uuid", or "SKIP"                                                                                    *)
 Eval(e, l) == CASE e = "J"           -> "whole"
                 [] e = "get"         -> IF l.fld = "absent" THEN "null" ELSE "field"
                 [] e = "uuid"        -> "uuid"
@@ -154,6 +173,8 @@ Eval(e, l) == CASE e = "J"           -> "whole"
                 [] e = "skip_if_sel" -> IF l.sel THEN "SKIP" ELSE "whole"
                 [] e = "fld_if_has"  -> IF l.fld = "absent" THEN "SKIP" ELSE "field"
                 [] e = "get_if_sel"  -> IF ~l.sel THEN "SKIP" ELSE IF l.fld = "absent" THEN "null" ELSE "field"
+                [] e = "copy"        -> "whole"
+                [] e \in EditExprs   -> IF Edits(e, l) THEN "whole_" \o e ELSE "whole"
 FCases == {[expr |-> e, stream |-> s] : e \in Exprs, s \in SeqsUpTo(FLineClasses, MaxLines)}
 
 FStep == /\ Part = "filter" /\ ~done /\ pos < Len(case.stream)
@@ -169,7 +190,10 @@ INV_Filter == Part = "filter" =>
     /\ Len(out) = pos - Cardinality(Skipped(case.expr, case.stream, pos))      \* SKIP drops exactly the selected ones
     /\ \A i \in DOMAIN out : out[i][1] \notin Skipped(case.expr, case.stream, pos)
     /\ \A i, j \in DOMAIN out : i < j => out[i][1] < out[j][1]                  \* in input order, each once
-    /\ case.expr = "J" => out = [i \in 1..pos |-> <<i, "whole">>]               \* identity reproduces every message
+    /\ case.expr \in {"J", "copy"} => out = [i \in 1..pos |-> <<i, "whole">>]    \* identity reproduces every message
+    /\ case.expr \in EditExprs =>                                               \* what is written is the value as edited
+          /\ Len(out) = pos
+          /\ \A i \in 1..pos : (out[i][2] = "whole") <=> ~Edits(case.expr, case.stream[i])
     /\ case.expr = "J_if_sel" => \A i \in 1..pos : (\E k \in DOMAIN out : out[k][1] = i) <=> case.stream[i].sel
     /\ case.expr = "skip_if_sel" => \A i \in 1..pos : (\E k \in DOMAIN out : out[k][1] = i) <=> ~case.stream[i].sel
     /\ done => pos = Len(case.stream)
